@@ -35,6 +35,7 @@ import Stgutg.Model.Suci
 import Stgutg.Model.UeIdentity
 import Stgutg.Model.Extract
 import Stgutg.Model.FailStop
+import Stgutg.Gen.Script
 
 namespace Stgutg.Model.Emulator
 open Stgutg Stgutg.Builders Stgutg.Model.NasProtect
@@ -577,7 +578,7 @@ def registerLoop (P : Prims) (E : Convert.Ext) (cfg : Cfg) : Nat → Nat → Lis
     let r ← registerUE P E cfg ue
     registerLoop P E cfg n (i + 1) (ues ++ [{ ue with amfUeNgapId := r.amfUeNgapId, kamf := r.kamf, sec := r.sec }])
 
-/-- the four clamps of test mode -/
+/-- the loop bounds of test mode -/
 structure Numbers where
   establish : Int
   service : Int
@@ -585,18 +586,53 @@ structure Numbers where
   deregister : Int
   deriving DecidableEq, Repr
 
+/-- the four clamps as one reads them in stg-utg.go (`pdu_establishment_number := Min(reg, pdu)`, `service_request_number :=
+    Min(pdu_establishment_number, svc)`, …): the EXPECTED bounds; `Props.C02.C02_generated_bounds` proves that the bounds
+    `gen script` extracts from the source on every run are these -/
 def numbers (reg pdu svc rel dereg : Int) : Numbers :=
   let pe := FailStop.goMin reg pdu
   { establish := pe, service := FailStop.goMin pe svc, release := FailStop.goMin pe rel, deregister := FailStop.goMin reg dereg }
 
+/-- the bound of the `for i := 0; i < bound; i++` loop of `main`'s test-mode branch that calls `proc`, as extracted from
+    stg-utg.go by `gen script` (Gen/Script.lean, regenerated on every check; variables are inlined, so the bound is an
+    expression in the configuration fields and `stgutg.Min`). No such loop: the field "" (evaluates to 0). -/
+def loopBound (proc : String) : FailStop.CountExpr :=
+  (Gen.Script.main.findSome? fun
+    | .loop b body => if body.any (fun st => match st with | .call p _ => p == proc | _ => false) then some b else none
+    | _ => none).getD (.cfg "")
+
+def countsOf (cfg : Cfg) : FailStop.Counts := { reg := cfg.reg, pdu := cfg.pdu, svc := cfg.svc, rel := cfg.rel, dereg := cfg.dereg }
+
+/-- the loop bounds test mode actually uses: the generated expressions evaluated on the configuration -/
+def genNumbers (c : FailStop.Counts) : Numbers :=
+  { establish := (loopBound "EstablishPDU").eval c, service := (loopBound "ServiceRequest").eval c,
+    release := (loopBound "ReleasePDU").eval c, deregister := (loopBound "DeregisterUE").eval c }
+
+def genRegistrations (c : FailStop.Counts) : Int := (loopBound "RegisterUE").eval c
+
 def testMode (P : Prims) (E : Convert.Ext) (cfg : Cfg) : M Unit := do
-  let n := numbers cfg.reg cfg.pdu cfg.svc cfg.rel cfg.dereg
+  let n := genNumbers (countsOf cfg)
   manageNGSetup E cfg
-  let ues ← registerLoop P E cfg cfg.reg.toNat 0 []
+  let ues ← registerLoop P E cfg (genRegistrations (countsOf cfg)).toNat 0 []
   let ues ← forUes (establishPDU P E cfg) n.establish.toNat 0 ues
   let ues ← forUes (serviceRequest P E cfg) n.service.toNat 0 ues
   let ues ← forUes (releasePDU P E cfg) n.release.toNat 0 ues
   let _ ← forUes (deregisterUE P E cfg) n.deregister.toNat 0 ues
+
+/-- `for i := 0; i < n; i++ { proc(ue) }` on ONE context (not a loop of `main`: the long-history scenario of the
+    correspondence harness, which calls a procedure repeatedly for the same UE to drive the NAS COUNT beyond 255) -/
+def repeatUe (f : Ue → M UeSec) : Nat → Ue → M Ue
+  | 0, ue => pure ue
+  | n + 1, ue => do
+    let sec ← f ue
+    repeatUe f n { ue with sec := sec }
+
+/-- the long-history scenario: NG Setup, registration of UE 0, then `cfg.pdu` calls of `EstablishPDU` for it -/
+def histMode (P : Prims) (E : Convert.Ext) (cfg : Cfg) : M Unit := do
+  manageNGSetup E cfg
+  let ue := createUE cfg 0
+  let r ← registerUE P E cfg ue
+  let _ ← repeatUe (establishPDU P E cfg) cfg.pdu.toNat { ue with amfUeNgapId := r.amfUeNgapId, kamf := r.kamf, sec := r.sec }
 
 /-- how the process ends: 0 after the banner, 1, 2, or never -/
 inductive Outcome where
@@ -609,8 +645,7 @@ structure Transcript where
   outcome : Outcome
   deriving Repr
 
-def emulate (P : Prims) (E : Convert.Ext) (cfg : Cfg) (dls : List Bytes) : Transcript :=
-  let r := testMode P E cfg { dls := dls }
+def transcriptOf (r : World × Except Stop Unit) : Transcript :=
   { uls := r.1.ulsRev.reverse, reports := r.1.reportsRev.reverse,
     outcome := match r.2 with
       | .ok _ => .completed
@@ -619,5 +654,11 @@ def emulate (P : Prims) (E : Convert.Ext) (cfg : Cfg) (dls : List Bytes) : Trans
       | .error .blocked => .blocked
       | .error .hang => .hang
       | .error .unmodelled => .unmodelled }
+
+def emulate (P : Prims) (E : Convert.Ext) (cfg : Cfg) (dls : List Bytes) : Transcript :=
+  transcriptOf (testMode P E cfg { dls := dls })
+
+def emulateHist (P : Prims) (E : Convert.Ext) (cfg : Cfg) (dls : List Bytes) : Transcript :=
+  transcriptOf (histMode P E cfg { dls := dls })
 
 end Stgutg.Model.Emulator
